@@ -7,4 +7,10 @@ require (
 	go.lstv.dev/util v0.0.0
 )
 
+require (
+	github.com/davecgh/go-spew v1.1.0 // indirect
+	github.com/pmezard/go-difflib v1.0.0 // indirect
+	gopkg.in/yaml.v3 v3.0.0-20200313102051-9f266ea9e77c // indirect
+)
+
 replace go.lstv.dev/util => /repo
